@@ -8,7 +8,8 @@ Metadata side of navis' file formats (C14, second pass) – everything that is *
   the source, executed by an interpreter) and what `NrrdReader.read_buffer` makes of it;
 * the neuroglancer `info` file (`write_info_file`, `PrecomputedWriter.write_any`, `read_precomputed`);
 * how `PrecomputedSkeletonReader.read_buffer` turns a multi-component vertex attribute into table columns;
-* the key filter of `write_json` / `read_json`.
+* the key filter of `write_json` / `read_json` and which neuron types `write_json` accepts;
+* the `units_nm` / `soma` / `neuron_name` attributes of the raw HDF5 representation.
 
 Import-free; unit magnitudes are `Rat` (0.5 nm, 4.5 nm … are legal voxel sizes).
 -/
@@ -247,5 +248,68 @@ def jsonWrite {α} (keep : List String) (pfx idKey : String) (id : α) (d : List
 every other key is `setattr`-ed. The set of attributes that reach the neuron: -/
 def jsonRead {α} (tables skip : List String) (d : List (String × α)) : List (String × α) :=
   d.filter fun p => tables.contains p.1 || !skip.contains p.1
+
+/-- `write_json`: is the call accepted (no `TypeError`)? A single neuron must be a `TreeNeuron`; a `NeuronList` passes the
+first `isinstance` test whatever it holds, and its members are tested one by one when `membersChecked` (generated from
+the source: the loop `for n in x: if not isinstance(n, core.TreeNeuron): raise TypeError`). -/
+def jsonAccepts (membersChecked isList : Bool) (kinds : List String) : Bool :=
+  (isList || kinds.all (· == "TreeNeuron")) && (!membersChecked || kinds.all (· == "TreeNeuron"))
+
+/-! ### HDF5 (hnf v1), raw representation: `units_nm`, `soma`, `neuron_name`
+
+The guards in front of the attribute writes are taken from the source as text (translator) and given Python's truth
+semantics here, so the theorems in `Props/C14.lean` speak about the guards that exist. -/
+
+/-- What `neuron_nm_units` returns when it is not `None`: one magnitude, or the per-axis triple. -/
+inductive Mag where
+  | scalar (q : Rat)
+  | triple (v : V3R)
+deriving Repr, DecidableEq
+
+/-- `units_xyz` in nm. -/
+def Mag.xyz : Mag → V3R
+  | .scalar q => (q, q, q)
+  | .triple v => v
+
+/-- Truth value of the test in front of `grp.attrs['units_nm'] = units` (`none` = evaluating the test raises:
+`bool()` of a 3-element array; unknown guard texts are rejected, so a re-worded guard must be given a meaning here). -/
+def unitsGuard (g : String) (m : Option Mag) : Option Bool :=
+  if g = "units is not None" then some m.isSome
+  else if g = "units" then
+    match m with
+    | none => some false
+    | some (.scalar q) => some (q != 0)
+    | some (.triple _) => none
+  else none
+
+/-- The `units_nm` attribute the writer leaves: `none` = the write raises, `some none` = no attribute. -/
+def h5UnitsAttr (g : String) (m : Option Mag) : Option (Option Mag) :=
+  (unitsGuard g m).map fun b => if b then m else none
+
+/-- `H5ReaderV1.parse_add_units` on a numeric attribute: a scalar gives isotropic units; for an array the expression
+assigned to `neuron.units` (text from the source) decides. Result: `units_xyz` in nm (`some none` = units untouched). -/
+def h5ReadUnits (arrayExpr : String) : Option Mag → Option (Option V3R)
+  | none => some none
+  | some (.scalar q) => some (some (q, q, q))
+  | some (.triple v) =>
+    if arrayExpr = "[f'{u} nm' for u in units]" then some (some v)
+    else if arrayExpr = "f'{units[0]} nm'" then some (some (v.1, v.1, v.1))
+    else none
+
+/-- Truth value of the test in front of `sk_grp.attrs['soma'] = …` for a single soma id (`has_soma` ends in `elif data:`,
+false for the id 0). -/
+def somaGuard (g : String) (soma : Option Int) : Option Bool :=
+  if g = "soma is not None" then some soma.isSome
+  else if g = "neuron.has_soma" then some (match soma with | some i => i != 0 | none => false)
+  else none
+
+def h5SomaAttr (g : String) (soma : Option Int) : Option (Option Int) :=
+  (somaGuard g soma).map fun b => if b then soma else none
+
+/-- `get_neuron_group`: the `neuron_name` attribute (`none` = raises: h5py cannot store `None`). -/
+def h5NameAttr (g : String) (name : Option String) : Option (Option String) :=
+  if g = "getattr(neuron, 'name', None) is not None" then some name
+  else if g = "hasattr(neuron, 'name')" then name.map some
+  else none
 
 end Navis.IoMeta
